@@ -255,4 +255,47 @@ pub(crate) mod k {
         absolute_position_dispatch(4);
     }
 
+
+    /// C15 / C03 / C04: a text fragment (plain or quoted) never becomes or joins geometry
+    #[kani::proof]
+    #[kani::unwind(8)]
+    #[kani::solver(kissat)]
+    pub(crate) fn check_fragment_celltext_dispatch() {
+        let c = any_valid_cell();
+        let d = any_valid_cell();
+        let s: f32 = kani::any();
+        kani::assume(valid_scale(s));
+        kani::cover!(true);
+        let t = Fragment::CellText(CellText::new(c, String::from("é-")));
+        // scale: the text anchored at q of its cell, then scaled; still text, same content
+        match t.scale(s) {
+            Fragment::Text(x) => {
+                assert!(x.start.x.to_bits() == ((c.x as f32 + 0.25) * s).to_bits() && x.start.y.to_bits() == ((c.y as f32 * 2.0 + 1.5) * s).to_bits(), "anchor = q * s");
+                assert!(str_eq_n::<4>(&x.text, "é-"), "content verbatim");
+            }
+            _ => assert!(false, "a scaled cell text is a text"),
+        }
+        match t.absolute_position(d) {
+            Fragment::CellText(x) => assert!(x.start.x == c.x + d.x && x.start.y == c.y + d.y && str_eq_n::<4>(&x.content, "é-"), "moved by the cell, content verbatim"),
+            _ => assert!(false, "still a cell text"),
+        }
+        assert!(!t.is_broken(), "text is never dashed");
+        let mut k = 0u8;
+        while k < 5 {
+            let g = plain_fragment_concrete(k);
+            assert!(t.merge(&g).is_none() && g.merge(&t).is_none(), "text never merges with geometry");
+            assert!(!t.is_contacting(&g) && !g.is_contacting(&t), "text never contacts geometry");
+            k += 1;
+        }
+    }
+
+    fn plain_fragment_concrete(k: u8) -> Fragment {
+        match k {
+            0 => Fragment::Line(Line::new_noswap(Point::new(0.0, 0.0), Point::new(1.0, 0.0), false)),
+            1 => Fragment::MarkerLine(MarkerLine::new(Point::new(0.0, 0.0), Point::new(1.0, 0.0), false, None, Some(Marker::Arrow))),
+            2 => Fragment::Circle(Circle::new(Point::new(1.0, 0.0), 0.5, false)),
+            3 => Fragment::Arc(Arc::new(Point::new(0.0, 0.0), Point::new(1.0, 1.0), 1.0)),
+            _ => Fragment::Rect(Rect::new(Point::new(0.0, 0.0), Point::new(1.0, 1.0), false, false)),
+        }
+    }
 }
